@@ -62,7 +62,7 @@ REQUIRED_CLASSES = [
     'direct_ok', 'fdc_npulses_1_ok', 'fdc_npulses_ge2_run',
     'ratio_rejected_ValueError', 'ratio_near_integer_accepted',
     'overlap_plain_rejected', 'begin_gt_end_rejected', 'overlap_tdc_case_run',
-    'fdc_mixed_frequency_units_UnitError',
+    'fdc_mixed_frequency_units_run',
 ]
 
 RATIOS = [(1, 1), (2, 1), (1, 2), (3, 1), (1, 3), (8, 1), (1, 4)]
@@ -314,7 +314,11 @@ def _disk(slits_deg, beam, phase, freq_value, funit):
 def check_config(rec, case, slits_deg, *, beam, phase, amode, freq_value, funit, pulse_value, punit, dtype, n_rep, npulses_list):
     """One real DiskChopper: the direct API and every expansion over pulses."""
     sub0 = {'beam_deg': beam, 'phase_deg': phase}
-    ch = build(slits_deg, beam=beam, phase=phase, amode=amode, freq_value=freq_value, funit=funit, dtype=dtype)
+    try:
+        ch = build(slits_deg, beam=beam, phase=phase, amode=amode, freq_value=freq_value, funit=funit, dtype=dtype)
+    except ValueError as e:
+        rec.viol('DiskChopper.__init__', 'valid_slits_rejected', f'non-overlapping slits {slits_deg} deg rejected: {str(e)[:80]}', **sub0)
+        return False
     pv = int(pulse_value) if dtype == 'int64' else float(pulse_value)
     pf = sc.scalar(pv, unit=punit, dtype=dtype)
     disk = _disk(slits_deg, beam, phase, ch.frequency.value.item() if hasattr(ch.frequency.value, 'item') else ch.frequency.value, funit)
@@ -324,9 +328,14 @@ def check_config(rec, case, slits_deg, *, beam, phase, amode, freq_value, funit,
     zero = beam == 0 and phase == 0 and all(0 <= b and e <= 360 for b, e in slits_deg)
 
     site = 'DiskChopper.time_offset_open_close'
-    topen = ch.time_offset_open(pulse_frequency=pf)
-    tclose = ch.time_offset_close(pulse_frequency=pf)
-    tdur = ch.open_duration(pulse_frequency=pf)
+    try:
+        topen = ch.time_offset_open(pulse_frequency=pf)
+        tclose = ch.time_offset_close(pulse_frequency=pf)
+        tdur = ch.open_duration(pulse_frequency=pf)
+    except ValueError as e:
+        rec.viol('DiskChopper._source_phase_factor', 'in_phase_ratio_rejected',
+                 f'frequency {ch.frequency.value!r} {funit} at pulse frequency {pv!r} {punit} rejected: {str(e)[:60]}', **sub0)
+        return False
     if topen.unit != tclose.unit or topen.dims != tclose.dims:
         rec.viol(site, 'unit_or_dims', f'open {topen.dims} [{topen.unit}] vs close {tclose.dims} [{tclose.unit}]', **sub0)
     opens, closes, durs = _seconds(topen), _seconds(tclose), _seconds(tdur)
@@ -348,6 +357,8 @@ def check_config(rec, case, slits_deg, *, beam, phase, amode, freq_value, funit,
         sub = dict(sub0, npulses=npulses)
         rec.states += 1
         rec.transitions += 1
+        if funit != punit:
+            rec.cls('fdc_mixed_frequency_units_run')
         try:
             cc = Chopper.from_disk_chopper(ch, pf, npulses)
         except sc.UnitError:
@@ -355,6 +366,9 @@ def check_config(rec, case, slits_deg, *, beam, phase, amode, freq_value, funit,
                 rec.cls('fdc_mixed_frequency_units_UnitError')
                 continue
             raise
+        except ValueError as e:
+            rec.viol('DiskChopper._source_phase_factor', 'in_phase_ratio_rejected', f'from_disk_chopper: {str(e)[:60]}', **sub)
+            continue
         if funit != punit:
             rec.cls('fdc_mixed_frequency_units_ok')
         rec.observe(cc.distance.values)
@@ -364,6 +378,7 @@ def check_config(rec, case, slits_deg, *, beam, phase, amode, freq_value, funit,
         if ok is not None:
             rec.cls('fdc_npulses_1_ok' if npulses == 1 else 'fdc_npulses_ge2_ok')
             rec.nontrivial += 1
+    return True
 
 
 def run_open(case, rec):
@@ -409,12 +424,8 @@ def run_ratio(case, rec):
     if case['expect'] == 'accept':
         quot = abs(fv) * float(UNIT_HZ[case['funit']]) / (pv * float(UNIT_HZ[case['punit']]))
         n_rep = round(max(quot, 1))
-        try:
-            check_config(rec, case, slits, beam=37, phase=15, amode='deg', freq_value=fv, funit=case['funit'],
-                         pulse_value=pv, punit=case['punit'], dtype='float64', n_rep=n_rep, npulses_list=[1])
-        except ValueError as e:
-            rec.viol('DiskChopper._source_phase_factor', 'in_phase_ratio_rejected', f'ratio {n}/{d}*(1{case["delta"]:+.0e}) rejected: {str(e)[:80]}')
-        else:
+        if check_config(rec, case, slits, beam=37, phase=15, amode='deg', freq_value=fv, funit=case['funit'],
+                        pulse_value=pv, punit=case['punit'], dtype='float64', n_rep=n_rep, npulses_list=[1]):
             rec.cls('ratio_near_integer_accepted')
         return
     ch = build(slits, beam=37, phase=15, amode='deg', freq_value=fv, funit=case['funit'])
